@@ -25,7 +25,7 @@ import GraphiqModel.Proofs.MixtureDMTotal
 import GraphiqModel.Proofs.MixtureDMPhysMeas
 import GraphiqModel.Proofs.MixtureDMZero
 import GraphiqModel.Proofs.MixtureDMWeights
-import GraphiqModel.Proofs.MixtureDMJoint
+import GraphiqModel.Proofs.MixtureDMJointCircuit
 import GraphiqModel.Proofs.MixtureDMPerBranch
 namespace Graphiq.C06
 open Graphiq Graphiq.Noise Graphiq.DM
@@ -575,6 +575,35 @@ theorem repaired_measurement_on_the_F2_witness :
           (mixtureDensity 1 (measureJointNorm 0 true s.mix).1).e 1 1 == (⟨1, 0⟩ : GQ) &&
           (mixtureDensity 1 (measureJointNorm 0 true s.mix).1).e 0 0 == (⟨0, 0⟩ : GQ)
       | _ => false) = true := by decide +kernel
+
+/-- **with the repaired measurement, clause (c) holds for every circuit with measurements** — no condition on the outcomes, no
+    weight threshold.  `compileStabJ` is `compileStab` with `MixedStabilizer.apply_measurement` replaced by `measureJointNorm`
+    (compiler, `apply_conditioned_gate` and `reset_z` untouched, as in the proposed patch).  Gates, CNOT / CZ with additive noise
+    (depolarizing probabilities in `[0,1]`, loss rates `≤ 1`, Pauli errors, either placement), noiseless `MeasurementZ`,
+    `ClassicalCNOT`, `ClassicalCZ`, `MeasurementCNOTandReset` (distinct qubits): whenever the repaired stabilizer compile returns
+    and the density-matrix compile returns a matrix (not NaN), the matrix is `Σ_k w_k ρ(T_k)` entry by entry and both backends
+    leave the same classical register.  Every number of qubits. -/
+theorem repaired_backends_agree_on_all_measurement_circuits (ns : Bool) (ne np nc : Nat) (det : Bool) (ops : List COp)
+    (hw : ∀ op ∈ ops, OpOKJ (ne + np) np op) (s : StabSt) (d : DmSt) (ρ : Mat)
+    (hs : compileStabJ ns ne np nc det ops = .ok s) (hd : compileDM ns ne np nc det ops = .ok d) (hρ : d.ρ = some ρ) :
+    Mat.EqOn ρ (mixtureDensity (ne + np) s.mix) ∧ d.creg = s.creg :=
+  dm_equals_mixture_repaired ns ne np nc det ops hw s d ρ hs hd hρ
+
+/-- the F2 witness circuit lies in the class, and on it the repaired compile agrees with the density matrix -/
+example : ∀ op ∈ ([{ kind := .x, n0 := .depol (1/3) true }, { kind := .measZ }] : List COp), OpOKJ (1 + 0) 0 op := by
+  intro op h
+  simp only [List.mem_cons, List.not_mem_nil, or_false] at h
+  rcases h with rfl | rfl
+  · exact .unitary ⟨⟨by decide, fun h => by simp [Kind.isCtrlPair, Kind.isClassicalCtrl] at h,
+      fun h => by simp [Kind.isCtrlPair] at h⟩, Or.inl rfl, ⟨by norm_num, by norm_num⟩, trivial⟩ ⟨by norm_num, by norm_num⟩ trivial
+  · exact .meas (Or.inl rfl) ⟨by decide, fun h => by simp [Kind.isCtrlPair, Kind.isClassicalCtrl] at h,
+      fun h => by simp [Kind.isCtrlPair] at h⟩ (fun h => by cases h) rfl rfl
+
+example :
+    (match compileDM true 1 0 1 true [{ kind := .x, n0 := .depol (1/3) true }, { kind := .measZ }],
+           compileStabJ true 1 0 1 true [{ kind := .x, n0 := .depol (1/3) true }, { kind := .measZ }] with
+      | .ok { ρ := some ρ, .. }, .ok s => Mat.beq ρ (mixtureDensity 1 s.mix) && s.mix.length == 2
+      | _, _ => false) = true := by decide +kernel
 
 end f2_repair
 
